@@ -85,11 +85,64 @@ fn case_variants(w: &[u8]) -> Vec<Vec<u8>> {
     out
 }
 
+/// a shortest string fully matched by the (case-sensitive) pattern: breadth-first search over its reference DFA
+fn shortest_witness(d: &model::reference::RefDfa) -> Option<Vec<u8>> {
+    use regex_automata::dfa::Automaton;
+    let n = d.ids.len();
+    let mut prev: Vec<Option<(usize, u8)>> = vec![None; n];
+    let mut seen = vec![false; n];
+    let mut q = std::collections::VecDeque::new();
+    seen[0] = true;
+    q.push_back(0usize);
+    let path = |prev: &Vec<Option<(usize, u8)>>, mut i: usize, last: Option<u8>| {
+        let mut v = Vec::new();
+        if let Some(b) = last {
+            v.push(b);
+        }
+        while let Some((j, b)) = prev[i] {
+            v.push(b);
+            i = j;
+        }
+        v.reverse();
+        v
+    };
+    while let Some(i) = q.pop_front() {
+        let s = d.ids[i];
+        if d.dfa.is_match_state(d.dfa.next_eoi_state(s)) && i != 0 {
+            return Some(path(&prev, i, None));
+        }
+        for b in 0..=255u8 {
+            let t = d.dfa.next_state(s, b);
+            if d.dfa.is_dead_state(t) {
+                continue;
+            }
+            let j = d.idx(t);
+            if !seen[j] {
+                seen[j] = true;
+                prev[j] = Some((i, b));
+                q.push_back(j);
+            }
+        }
+    }
+    None
+}
+
 fn extra_inputs(def: &DefSpec) -> Vec<Vec<u8>> {
     let mut out = Vec::new();
-    for (p, _) in def.leaves() {
+    for (p, variant) in def.leaves() {
         if p.kind == PatKind::Token {
             out.extend(case_variants(&p.lit.value()));
+        } else if p.ignore_case {
+            // case-toggled variants of a shortest match of the pattern as written (references inlined)
+            if let Some((text, unicode, _)) = model::reference::pattern_regex(p, variant.is_none()) {
+                if let Ok(d) = model::reference::RefDfa::new(&text, unicode, false) {
+                    if let Some(w) = shortest_witness(&d) {
+                        if w.len() <= 24 {
+                            out.extend(case_variants(&w));
+                        }
+                    }
+                }
+            }
         }
     }
     if def.utf8 {
@@ -183,7 +236,7 @@ pub fn main(args: &Args) -> i32 {
         "C10",
         &args.tier,
         args.seed,
-        "proptest literal family: #[token(w)] with w over all regex metacharacters, cased non-ASCII chars and arbitrary bytes (str and byte-string), with/without ignore(case); #[regex(p, ignore(case))]; #[logos(skip(p, ignore(case)))]; inputs = joint transition cover + case-toggled variants of every literal (whole-string, per-char, special folds K/ſ/ς/İ, doubled, with suffix); oracle: exact bytes for plain tokens, regex crate language of the harness-escaped literal / pattern under case_insensitive otherwise; leaf metadata equal to the flag-less twin; evaluation = one (definition,input); non-trivial = distinct definitions whose literal has a metacharacter or a byte >= 0x80, or with a case-insensitive skip",
+        "proptest literal family: #[token(w)] with w over all regex metacharacters, cased non-ASCII chars and arbitrary bytes (str and byte-string), with/without ignore(case); #[regex(p, ignore(case))]; #[logos(skip(p, ignore(case)))]; ignore(case) regexes / skips that reference a subpattern with cased chars; inputs = joint transition cover + case-toggled variants of every literal and of a shortest match of every ignore(case) regex / skip, subpattern references included (whole-string, per-char, special folds K/ſ/ς/İ, doubled, with suffix); oracle: exact bytes for plain tokens, regex crate language of the harness-escaped literal / pattern under case_insensitive otherwise; leaf metadata equal to the flag-less twin; evaluation = one (definition,input); non-trivial = distinct definitions whose literal has a metacharacter or a byte >= 0x80, or with a case-insensitive skip",
     );
     run.assumptions = vec!["harness escaping (\\xHH / \\x{H} for every non-alphanumeric) is independent of regex_syntax::escape used by logos".into()];
     if let Some(path) = &args.replay {
